@@ -396,3 +396,27 @@ def compression_key_is_exact(ctx, P, pre):
                 bad.append("%s key %s" % (method(cname(t)), show(e)[:60]))
     ctx.ob(pre + ".compression-key-exact", f.name, n >= 2 and not bad, f.loc(),
            "%d accesses of the compression table, all keyed by the joined label suffix itself" % n if not bad else "; ".join(bad))
+
+
+# ------------------------------------------------------------------------------------------------
+def srv_expiry_reported_for_every_listing(ctx, P, pre):
+    """an instance can be listed by several PTR names (its type and its subtypes), each with its own browser.  The walk
+    over the PTR names in evict_expired_services decides `SRV ran out` per name by looking the instance up in
+    DnsCache.srv: nothing inside that walk may remove keys from the map, or only the first name (in HashMap order) gets
+    the instance in the removal report"""
+    f = P.one("DnsCache::evict_expired_services")
+    loops = f.loops()
+    look = [b for b, t in f.calls() if "HashMap" in cname(t) and method(cname(t)) in ("get", "get_mut", "contains_key") and recv_is_field(P, f, b, t, "srv", "DnsCache")]
+    ctx.require(bool(look) and bool(loops), pre + ".anchor", f.name + "|srv lookup in the PTR walk", f.loc(), "%d lookups, %d loops" % (len(look), len(loops)))
+    if not look or not loops:
+        return
+    walk_blocks = set()
+    for h, body in loops.items():
+        if any(b in body for b in look):
+            walk_blocks |= set(body)
+    bad = [f.loc(b) for b, t in f.calls() if b in walk_blocks and "HashMap" in cname(t) and
+           method(cname(t)) in ("remove", "remove_entry", "retain", "clear", "drain", "extract_if") and recv_is_field(P, f, b, t, "srv", "DnsCache")]
+    ctx.ob(pre + ".srv-expiry-reported-for-every-listing", f.name, bool(walk_blocks) and not bad, f.loc(),
+           "the walk over the PTR names looks instances up in DnsCache.srv and removes no key from it" if not bad else
+           "DnsCache.srv loses keys inside the walk over the PTR names (%s): an instance listed by a type and a subtype is reported "
+           "removed to one of the two browsers only" % bad)
